@@ -274,6 +274,8 @@ def _run_op(ctx, op, opts):
     del seams.WARN_LOG[:]
     del seams.RNG_LOG[:]
     rng_before = state.rng_fp()
+    if op.get('tags', {}).get('rng_state'):
+        rec['rng_state_before'] = np.random.get_state()
     if seams.SHIM is not None:
         io0 = seams.SHIM.count()
     clock0 = seams.CLOCK.calls
